@@ -188,6 +188,7 @@ def run_script(rp, kind, ops):
     """runs the real scheduler; task_states ops marked _fill get pilot/cores from what really happened"""
     s = make_sched(rp, kind)
     res, fwd, cores, named = [], {}, {}, {}
+    assigned, finished, any_err = {}, {}, False
     violations = []
     seen_val = {}          # pilot -> furthest state value any message carried so far
     used_state = {}        # pilot -> state value the scheduler tracked after the previous op
@@ -202,6 +203,13 @@ def run_script(rp, kind, ops):
                     if t['pilot'] is None and t['uid'] in fwd:
                         t['pilot'] = fwd[t['uid']]
                     t['cores'] = cores.get(t['uid'], 1)
+        # -- an account of the backfilling usage figure kept by the monitor itself: what was assigned to a pilot
+        #    since it was (last) added, and which of those tasks were reported past execution
+        if kind == 'bf' and op['op'] == 'task_states':
+            for t in op['tasks']:
+                pid = t.get('pilot')
+                if pid is not None and t['uid'] in assigned.get(pid, {}) and t['sv'] > 10:
+                    finished.setdefault(pid, set()).add(t['uid'])
         pids_before = [pnum(p) for p in s._pids]
         used_before = {pnum(p): (v.get('info') or {}).get('used', 0) for p, v in s._pilots.items()}
         outs, err, rec = apply_op(rp, s, kind, op)
@@ -216,6 +224,14 @@ def run_script(rp, kind, ops):
                                    % (pe[0], was, pe[2], op['op'])))
             if pe[2] is not None: used_state[pe[0]] = pe[2]
         res.append({'outs': outs, 'err': err, 'state': snap})
+        if err: any_err = True
+        if kind == 'bf' and op['op'] == 'add' and not err:
+            for pid in op['pids']:
+                assigned[pid], finished[pid] = {}, set()
+        if kind == 'bf':
+            for o in outs:
+                if o[0] == 'fwd' and named.get(o[1]) is None:
+                    assigned.setdefault(o[2], {})[o[1]] = cores.get(o[1], 1)
         # -- monitor -----------------------------------------------------------------
         for o, r in zip(outs, rec):
             if o[0] != 'fwd': continue
@@ -256,6 +272,15 @@ def run_script(rp, kind, ops):
                     violations.append(('rr:unbalanced-batch', 'loads %s over pilots %s' % (cnt, snap['pids'])))
         if err == 'RuntimeError':
             violations.append(('bf:inconsistent-scheduler-state', 'update_tasks raised RuntimeError on %s' % op))
+    if kind == 'bf' and not any_err:
+        for pid, p in s._pilots.items():
+            info = p.get('info') or {}
+            n = pnum(pid)
+            want = sum(c for u, c in assigned.get(n, {}).items() if u not in finished.get(n, set()))
+            if info and info['used'] != want:
+                violations.append(('bf:usage-differs-from-the-tasks-still-running',
+                                   'pilot %s: used %s; assigned since it was added %s, reported finished %s'
+                                   % (pid, info['used'], assigned.get(n, {}), sorted(finished.get(n, set())))))
     if kind == 'bf':
         for pid, p in s._pilots.items():
             info = p.get('info') or {}
